@@ -5,7 +5,7 @@
 
   * `rejKindX`, `xchg_desc` — the step `xchg`, described by the specification: accepted (the
     specification moves by `specXchg`; handles, pool, registry, filter heap unchanged) or rejected
-    with the class `rejKindX` computes (the typed pre-validation; `deadEntity`; `noComponents`; the
+    with the class `rejKindX` computes (`Unsafe` on a dead handle: `deadEntity`; the pre-validation; `deadEntity`; `noComponents`; the
     class the mask walk of `graph.Find` reports) without effect;
   * `stepOut3`, `labelsAfter3`, `trace3`, `labels3`, `sim_step3`, `sim_run3`, `regsOf3`,
     `regs_run3`, `reach3_reserved`, `sim_reset_regs3`;
@@ -34,7 +34,7 @@ open Refine (Outcome outcome Reserved2 keys findKind)
     class the mask walk of `graph.Find` reports (`missing`, `alreadyHas`, `addedAndRemoved`) -/
 def rejKindX (ss : SS) (p : Path) (e : Ent) (add rem : List Comp) (rels : Rels) : PanicKind :=
   match find ss.ents e with
-  | none => (preKindP ss p add rels).getD .deadEntity
+  | none => if p = .unsafe_ then .deadEntity else (preKindP ss p add rels).getD .deadEntity
   | some en =>
     (preKindP ss p add rels).getD
       (if add = [] ∧ rem = [] then .noComponents
@@ -59,16 +59,12 @@ theorem xchg_desc (run : ProbeRunner) {s : St} {fl : List Nat} (H : HInv2 s fl)
       outcomeU (opExchange run p e add vals rem rels s.w) =
         .panic (rejKindX s.ss p e add rem rels)) := by
   have HB := H.base
-  have hg' : ((e ∈ s.issued ∧ ∀ c ∈ add, c < s.ss.zst.length) ∧ RelsWF s.ss.isRel add rels) ∧
-      relsExpr s p rels = true := by
+  have hg' : ((e ∈ s.issued ∧ ∀ c ∈ add, c < s.ss.zst.length) ∧ RelsStep s.ss.isRel p add rels) ∧
+      tgtsExpr s rels = true := by
     simpa only [guardXchg, Bool.and_eq_true, List.all_eq_true, decide_eq_true_eq] using hg
-  obtain ⟨⟨⟨hi, hreg⟩, hwf⟩, hx⟩ := hg'
+  obtain ⟨⟨⟨hi, hreg⟩, hst⟩, hx⟩ := hg'
   have hreg' : ∀ (c : Comp), c ∈ add → c < s.w.kinds.length := by rw [← HB.zlen]; exact hreg
   have hb256 : ∀ (c : Comp), c ∈ add → c < 256 := fun c hc => HB.reg256 (hreg' c hc)
-  obtain ⟨hrnd, hrin, hrall⟩ := hwf
-  have hin : ∀ (r : RelID), r ∈ rels → r.comp ∈ add := fun r hr => (hrin r hr).1
-  have hrc : ∀ (r : RelID), r ∈ rels → s.w.isRelComp r.comp = true :=
-    fun r hr => by rw [← HB.rget]; exact (hrin r hr).2
   have hal := HB.alive_eq_find hi
   constructor
   · rintro ⟨en, hf, hok⟩
@@ -77,7 +73,10 @@ theorem xchg_desc (run : ProbeRunner) {s : St} {fl : List Nat} (H : HInv2 s fl)
     have ok := HB.ok e en hm
     have hmask : ∀ (c : Comp), (s.w.maskOf e).get c = true ↔ c ∈ keys en.comps := fun c => by
       rw [HB.tinv.mask_iff_comps h2 hnf ha (Pool.lt_of_slot hsl) ok.comps c, HB.comps_iff hm c]
-    obtain ⟨⟨hne, hremnd, hremhas, haddnd, hall⟩, _, hv⟩ := hok
+    obtain ⟨⟨hne, hremnd, hremhas, haddnd, hall⟩, ⟨hrnd, hrin, hrall⟩, hv⟩ := hok
+    have hin : ∀ (r : RelID), r ∈ rels → r.comp ∈ add := fun r hr => (hrin r hr).1
+    have hrc : ∀ (r : RelID), r ∈ rels → s.w.isRelComp r.comp = true :=
+      fun r hr => by rw [← HB.rget]; exact (hrin r hr).2
     have hpw : XchgPre s.w e add rem rels :=
       { nonempty := hne
         remNodup := hremnd
@@ -95,27 +94,34 @@ theorem xchg_desc (run : ProbeRunner) {s : St} {fl : List Nat} (H : HInv2 s fl)
         relsAll := fun c hc hr => hrall c hc (by rw [HB.rget]; exact hr)
         targets := HB.targets_alive hv }
     obtain ⟨w', hop, post, _, ck⟩ := opExchange_rel_keep run p HB.tinv HB.unlocked HB.noObs h2 hnf
-      ha (Pool.lt_of_slot hsl) hpw vals (HB.tgts_in (relsExpr_iff.mp hx).1) hfew hent
+      ha (Pool.lt_of_slot hsl) hpw vals (HB.tgts_in hx) hfew hent
     simp only [step3, if_pos hg, hop, Res.state]
     exact ⟨trivial, trivial, post.pool, post.kinds, ck.filters, rfl⟩
   · intro hnp
-    have hpk := HB.preCheck_kind p add (relsExpr_iff.mp hx).1
+    have hpk := HB.preCheck_kind p add hx
     have hkind : opExchange run p e add vals rem rels s.w =
         .panic (rejKindX s.ss p e add rem rels) s.w := by
       cases hf : find s.ss.ents e with
       | none =>
         have ha : s.w.alive e = false := by rw [hal, hf]; rfl
         have hcore := exchangeCore_dead run s.w HB.unlocked e ha add rem rels
-        cases hk : preKindP s.ss p add rels with
-        | some k =>
-          have h1 := ofKind_some hpk hk
-          cases p with
-          | unsafe_ => simp only [preKindP] at hk; cases hk
-          | map1 => simp [opExchange, bind, M.bind, h1, rejKindX, hf, hk]
-          | typed => simp [opExchange, bind, M.bind, h1, rejKindX, hf, hk]
-        | none =>
-          have h1 := ofKind_none hpk hk
-          cases p <;> simp [opExchange, bind, M.bind, M.get, M.assert, ha, h1, hcore, rejKindX, hf, hk]
+        by_cases hpu : p = .unsafe_
+        · subst hpu
+          rw [opExchange_dead_first run e add vals rem rels s.w ha]
+          simp only [rejKindX, hf, if_true]
+        · cases hk : preKindP s.ss p add rels with
+          | some k =>
+            have h1 := ofKind_some hpk hk
+            cases p with
+            | unsafe_ => exact absurd rfl hpu
+            | map1 => simp [opExchange, bind, M.bind, h1, rejKindX, hf, hk]
+            | typed => simp [opExchange, bind, M.bind, h1, rejKindX, hf, hk]
+          | none =>
+            have h1 := ofKind_none hpk hk
+            cases p with
+            | unsafe_ => exact absurd rfl hpu
+            | map1 => simp [opExchange, bind, M.bind, h1, hcore, rejKindX, hf, hk]
+            | typed => simp [opExchange, bind, M.bind, h1, hcore, rejKindX, hf, hk]
       | some en =>
         have ha : s.w.alive e = true := by rw [hal, hf]; rfl
         cases hk : preKindP s.ss p add rels with
@@ -125,8 +131,7 @@ theorem xchg_desc (run : ProbeRunner) {s : St} {fl : List Nat} (H : HInv2 s fl)
           simp only [rejKindX, hf, hk, Option.getD_some]
         | none =>
           have h1 := ofKind_none hpk hk
-          have hv := valid_of_pre_ok HB hx (fun r hr => ⟨hrc r hr, by
-            rw [Mask.get_ofList]; simp [hb256 r.comp (hin r hr), hin r hr]⟩) h1
+          obtain ⟨hwf, hv⟩ := wf_of_pre_ok hst hk
           have hm := find_some_mem hf
           obtain ⟨_, _, h2, hnf, _, hsl⟩ := HB.live_facts hm
           have ok := HB.ok e en hm
@@ -140,7 +145,7 @@ theorem xchg_desc (run : ProbeRunner) {s : St} {fl : List Nat} (H : HInv2 s fl)
             simp [hc]
           have hv1 : ¬ (¬ (add = [] ∧ rem = []) ∧ rem.Nodup ∧ (∀ c ∈ rem, c ∈ keys en.comps) ∧
               add.Nodup ∧ ∀ c ∈ add, c < s.ss.zst.length ∧ c ∉ keys en.comps) :=
-            fun hh => hnp ⟨en, hf, hh, ⟨hrnd, hrin, hrall⟩, hv⟩
+            fun hh => hnp ⟨en, hf, hh, hwf, hv⟩
           by_cases hne : add = [] ∧ rem = []
           · obtain ⟨rfl, rfl⟩ := hne
             rw [opExchange_rel_panic run p e [] vals [] rels s.w ha h1
@@ -186,7 +191,7 @@ def labels3 (run : ProbeRunner) : List Nat → St → List Op3 → List Nat
 
 theorem guardXchg_congr {s1 s2 : St} (hss : s1.ss = s2.ss) (hi : s1.issued = s2.issued) (p : Path)
     (e : Ent) (add : List Comp) (rels : Rels) : guardXchg s1 p e add rels = guardXchg s2 p e add rels := by
-  simp only [guardXchg, relsExpr, tgtsExpr, hss, hi]
+  simp only [guardXchg, tgtsExpr, hss, hi]
 
 /-- **`Sim` is kept by every step of `Ark.RelRefine3`, and the client sees the same** -/
 theorem sim_step3 (run1 run2 : ProbeRunner) {L : List Nat} {s1 s2 : St} {fl1 fl2 : List Nat}
